@@ -103,6 +103,31 @@ Theorem stop_at_first_error_refuted :
 Proof. exact Proofs_Pump.stop_at_first_error_refuted_proof. Qed.
 Print Assumptions stop_at_first_error_refuted.
 
+(** For EVERY receiver policy ([keep] arbitrary: what the receiver does after the callback raised) and every callback:
+    what the callback was called with, followed by what was never received, is the build's stream -- nothing lost, repeated,
+    reordered or invented; the callback always holds a prefix. *)
+Theorem callback_holds_a_prefix :
+  forall (raises : sev -> bool) keep out c w l,
+    p_seen (fst (feed raises keep pump0 (run_stream out c w l))) ++ snd (feed raises keep pump0 (run_stream out c w l))
+    = run_stream out c w l.
+Proof. exact Proofs_Pump.callback_holds_a_prefix_proof. Qed.
+Print Assumptions callback_holds_a_prefix.
+
+(** a receiver that is still receiving at the end has left no sender blocked, whatever its policy *)
+Theorem alive_receiver_blocks_nothing :
+  forall (A : Type) (raises : A -> bool) keep evs p,
+    p_alive (fst (feed raises keep p evs)) = true -> snd (feed raises keep p evs) = [].
+Proof. exact (@Proofs_Pump.feed_alive_nothing_blocked_gen). Qed.
+Print Assumptions alive_receiver_blocks_nothing.
+
+(** the complete characterisation of stop_at_first_error_refuted: a stop-at-first-error receiver leaves senders blocked
+    exactly when the callback raises for an event that is not the last one sent (for a build: any event but run-done) *)
+Theorem stopping_pump_blocks_iff :
+  forall (A : Type) (raises : A -> bool) evs,
+    snd (feed raises false pump0 evs) = [] <-> forallb (fun x => negb (raises x)) (removelast evs) = true.
+Proof. exact (@Proofs_Pump.stopping_pump_blocks_iff_proof). Qed.
+Print Assumptions stopping_pump_blocks_iff.
+
 (** non-vacuity: target 1 writes "ab", "\nc" and fails; target 2 is cut off below it *)
 Example stream_example :
   let pr := [(1, Fn [] [10] [100] 1 7 false); (2, Fn [1] [] [101] 2 8 false); (10, Src 50)] in
